@@ -85,6 +85,59 @@ func c41writes(p *Pkg, root ast.Node) []token.Pos {
 	return out
 }
 
+// c41classify says what a mutator call passes as the child: a node created on the
+// spot ("fresh"), a local variable only ever assigned fresh nodes ("fresh-var"),
+// a parameter of the enclosing function ("param"), or anything else ("other").
+func c41classify(p *Pkg, fd *ast.FuncDecl, arg ast.Expr) string {
+	isFresh := func(e ast.Expr) bool {
+		switch x := e.(type) {
+		case *ast.UnaryExpr:
+			if cl, ok := x.X.(*ast.CompositeLit); ok && x.Op == token.AND && c41norm(p, cl.Type) == "Node" {
+				return true
+			}
+		case *ast.CallExpr:
+			if sel, ok := x.Fun.(*ast.SelectorExpr); ok && sel.Sel.Name == "clone" && len(x.Args) == 0 {
+				return true
+			}
+		}
+		return false
+	}
+	if isFresh(arg) {
+		return "fresh"
+	}
+	id, ok := arg.(*ast.Ident)
+	if !ok {
+		return "other"
+	}
+	for _, fl := range fd.Type.Params.List {
+		for _, n := range fl.Names {
+			if n.Name == id.Name {
+				return "param"
+			}
+		}
+	}
+	assigned, allFresh := 0, true
+	ast.Inspect(fd.Body, func(n ast.Node) bool {
+		as, ok := n.(*ast.AssignStmt)
+		if !ok {
+			return true
+		}
+		for i, l := range as.Lhs {
+			if li, ok := l.(*ast.Ident); ok && li.Name == id.Name {
+				assigned++
+				if len(as.Rhs) != len(as.Lhs) || !isFresh(as.Rhs[i]) {
+					allFresh = false
+				}
+			}
+		}
+		return true
+	})
+	if assigned > 0 && allFresh {
+		return "fresh-var"
+	}
+	return "other"
+}
+
 func c41leanStrList(xs []string) string {
 	q := make([]string, len(xs))
 	for i, x := range xs {
@@ -109,6 +162,7 @@ func init() {
 		sort.Strings(names)
 		var outside []string
 		var ibCallers []string
+		var childSites []string
 		for _, name := range names {
 			if name == "node.go" {
 				continue
@@ -127,6 +181,18 @@ func init() {
 					if c, ok := n.(*ast.CallExpr); ok {
 						if sel, ok := c.Fun.(*ast.SelectorExpr); ok && sel.Sel.Name == "InsertBefore" {
 							ibCallers = append(ibCallers, name+":"+fd.Name.Name)
+						}
+						if sel, ok := c.Fun.(*ast.SelectorExpr); ok && len(c.Args) >= 1 &&
+							(sel.Sel.Name == "InsertBefore" || sel.Sel.Name == "AppendChild") {
+							childSites = append(childSites, name+":"+fd.Name.Name+" "+sel.Sel.Name+" "+c41classify(p, fd, c.Args[0])+":"+c41norm(p, c.Args[0]))
+						}
+						// callers of the helpers that forward their parameter to a mutator
+						if sel, ok := c.Fun.(*ast.SelectorExpr); ok && len(c.Args) == 1 &&
+							(sel.Sel.Name == "addChild" || sel.Sel.Name == "fosterParent") {
+							childSites = append(childSites, name+":"+fd.Name.Name+" "+sel.Sel.Name+" "+c41classify(p, fd, c.Args[0])+":"+c41norm(p, c.Args[0]))
+						}
+						if id, ok := c.Fun.(*ast.Ident); ok && id.Name == "reparentChildren" && len(c.Args) == 2 {
+							childSites = append(childSites, name+":"+fd.Name.Name+" reparentChildren "+c41classify(p, fd, c.Args[0])+":"+c41norm(p, c.Args[0]))
 						}
 					}
 					// method values (x.InsertBefore passed around) would escape this scan
@@ -170,6 +236,36 @@ func init() {
 		b.WriteString("def nodeGoLinkWriters : List String := " + c41leanStrList(writers) + "\n")
 		b.WriteString("/-- functions outside node.go that call InsertBefore -/\n")
 		b.WriteString("def insertBeforeCallers : List String := " + c41leanStrList(ibCallers) + "\n")
+		// not sorted: source order within a file is part of the fact
+		var short []string
+		for _, cs := range childSites {
+			if len(cs) > 160 {
+				cs = cs[:160]
+			}
+			short = append(short, cs)
+		}
+		b.WriteString("/-- every call outside node.go of AppendChild/InsertBefore, and of the helpers addChild/fosterParent/\nreparentChildren that forward a node to them: `file:function callee class:argument` -/\n")
+		b.WriteString("def childArgSites : List String := [\n  " + strings.Join(func() []string {
+			q := make([]string, len(short))
+			for i, x := range short {
+				q[i] = strconv.Quote(x)
+			}
+			return q
+		}(), ",\n  ") + "]\n")
+		var nonFresh, forwarders []string
+		for _, cs := range short {
+			f := strings.SplitN(cs, " ", 3)
+			if len(f) == 3 && strings.HasPrefix(f[2], "other:") {
+				nonFresh = append(nonFresh, cs)
+			}
+			if len(f) == 3 && strings.HasPrefix(f[2], "param:") {
+				forwarders = append(forwarders, cs)
+			}
+		}
+		b.WriteString("/-- the sites whose node argument is neither created on the spot nor a forwarded parameter -/\n")
+		b.WriteString("def nonFreshChildSites : List String := " + c41leanStrList(nonFresh) + "\n")
+		b.WriteString("/-- the helpers that forward their parameter to a mutator (their callers are listed in childArgSites) -/\n")
+		b.WriteString("def paramForwarders : List String := " + c41leanStrList(forwarders) + "\n")
 		b.WriteString("def scannedFiles : List String := " + c41leanStrList(names) + "\n")
 		b.WriteString("def insertBeforeSrc : String := " + strconv.Quote(src["InsertBefore"]) + "\n")
 		b.WriteString("def appendChildSrc : String := " + strconv.Quote(src["AppendChild"]) + "\n")
